@@ -96,7 +96,7 @@ func runMutantsImpl(c *Ctx, verif, repo string, extra map[string]any) {
 	extra["mutants_summary"] = fmt.Sprintf("%d breaking changes detected, %d missed, %d false alarms on behaviour-preserving edits, %d not applicable to the current tree", det, miss, fa, na)
 	fmt.Printf("mutants: %s\n", extra["mutants_summary"])
 	for _, r := range results {
-		if r.Result == "MISSED" || r.Result == "FALSE-ALARM" {
+		if r.Result == "MISSED" || r.Result == "FALSE-ALARM" || r.Result == "not-applicable" || r.Result == "does-not-load" {
 			fmt.Printf("  %s %s\n", r.Result, r.Patch)
 		}
 	}
